@@ -8,20 +8,20 @@ id=$1; v=$2; CID=$(echo $id | tr a-z A-Z)
 out=/tmp/seed/out/$id; wt=/tmp/seed/$id
 export GOFLAGS=-mod=mod GOPROXY=off GOSUMDB=off GOTOOLCHAIN=local
 # demo placement commands are sometimes written as comments: un-comment mkdir/cp lines
-sed -E 's/^#[[:space:]]*((mkdir|cp) .*)$/\1/' $out/$v.cmd > /tmp/seed/$id.$v.cmd.sh
+sed -E 's/^#[[:space:]]*((mkdir|cp) .*)$/\1/' $out/$v.cmd > $out/$v.cmd.run.sh
 clean() { git -C $wt checkout -q -- . ; git -C $wt clean -fdq; }
 clean
-bash /tmp/seed/$id.$v.cmd.sh > /tmp/seed/$id.$v.head.log 2>&1; r_head=$?
+bash $out/$v.cmd.run.sh > /tmp/seed/$id.$v.head.log 2>&1; r_head=$?
 clean
 git -C $wt apply $out/$v.diff || { echo "$CID-$v: PATCH DOES NOT APPLY"; exit 2; }
 (cd $wt && go1.26 build -overlay /tmp/seed/$id.overlay.json ./... ) > /tmp/seed/$id.$v.build.log 2>&1; r_build=$?
 (cd $wt && go1.26 test -vet=off -count=1 ./errguard/... ./internal/... ./optgen/... ./sql/in_mem_table/... ./sql/planbuilder/dateparse/... ./sql/sqlredact/... ./enginetest/scriptgen/... ) > /tmp/seed/$id.$v.suite.log 2>&1; r_suite=$?
-bash /tmp/seed/$id.$v.cmd.sh > /tmp/seed/$id.$v.patched.log 2>&1; r_patched=$?
+bash $out/$v.cmd.run.sh > /tmp/seed/$id.$v.patched.log 2>&1; r_patched=$?
 clean
 echo "$CID-$v: demo@HEAD exit=$r_head (want 0), build=$r_build (want 0), suite=$r_suite (want 0), demo@patched exit=$r_patched (want !=0)"
 if [ $r_head -eq 0 ] && [ $r_build -eq 0 ] && [ $r_suite -eq 0 ] && [ $r_patched -ne 0 ]; then
   d=/verif/seeded/$CID-$v; mkdir -p $d
-  cp $out/$v.diff $d/patch.diff; cp /tmp/seed/$id.$v.cmd.sh $d/demo.cmd
+  cp $out/$v.diff $d/patch.diff; cp $out/$v.cmd.run.sh $d/demo.cmd
   for f in $out/${v}_demo* $out/${v}_*; do [ -e "$f" ] && cp -r "$f" $d/; done
   [ -f $out/notes.md ] && cp $out/notes.md $d/notes.md
   echo "CONFIRMED -> $d"
